@@ -1072,6 +1072,7 @@ fn div_euclid_f64(lhs: f64, rhs: f64) -> f64 {
     }
 }
 
+#[allow(dead_code)]
 fn rem_euclid_f64(lhs: f64, rhs: f64) -> f64 {
     let r = lhs % rhs;
     if r < 0.0 {
